@@ -145,7 +145,12 @@ def _run(ix, R):
         # the interpolated profile: the assignment whose value is an np.interp of the node arrays (any name)
         tp = [e for e in fl.of('assign') if isinstance(e.value, RF) and atom_of(fl, e.value) is not None and
               atom_of(fl, e.value).head == 'call' and atom_of(fl, e.value).extra[0] == 'fn:interp']
-        t = one(tp, 'interpolated profile')
+        # (the same value held under several names - `TP = np.interp(...)`, `out = TP` - is one interpolated profile)
+        distinct_ = []
+        for e_ in tp:
+            if not any(fl.tab.equal(e_.value, d_.value) for d_ in distinct_):
+                distinct_.append(e_)
+        t = one(distinct_, 'interpolated profile')
         want = spec(fl, 'interp(log10(self.pressure_profile[::-1]), log10(Pn[::-1]), Tn[::-1])', {'Pn': cp.args[0], 'Tn': Tn})
         R.check('3.npoint.interp', 'ALG', site,
                 'profile = interpolation of the temperature nodes in log10 pressure (ascending order for np.interp)',
